@@ -64,6 +64,7 @@ type pathState struct {
 	goStmts   int
 	lastModel map[string]*Term
 	alpha     map[string]string // input name -> character class it is restricted to
+	notes     map[string]bool   // failed Note labels
 }
 
 type inputDecl struct {
